@@ -19,7 +19,7 @@ from ..tunnelsim import World, parse_cell
 
 PID = "C06"
 LEVEL = "exploration"
-RULE = ("(a) all 65536 values of the first two bytes x lengths {0,1,2,7,8,11,12,19,20,21,22,23,24,64} (thorough: 0..64) x "
+RULE = ("[plus first_src other_ip_after_ping: the circuit's ping reaches the exit before any data] (a) all 65536 values of the first two bytes x lengths {0,1,2,7,8,11,12,19,20,21,22,23,24,64} (thorough: 0..64) x "
         "bytes 8..11 in {0..4, 0xffffffff} x first/last byte d..e variants x tunnel-prefix / other prefix, under the 4 "
         "subsets of {EXIT_BT, EXIT_IPV8} - exhaustive over that grid; (b,c) Hypothesis-drawn (flags, RELAY on/off, hops "
         "1..2, payload class, destination in IPv4/IPv6/domain/0.0.0.0:0, direction, source of the first data cell). "
